@@ -108,7 +108,9 @@ def _cli_batch(args):
                 f.write(text)
             st, out, err = core.run_limited([chibicc, "-cc1", "-E"] + opts + ["-cc1-input", src, src], cwd=wd)
             n += 1
-            got = dict(re.findall(r"^P(\d+): (.*)$", out, re.M))
+            # the tokens of a probe may be spread over several output lines (white space is not significant)
+            parts = re.split(r"(?m)^P(\d+):", out)
+            got = {parts[j]: " ".join(parts[j + 1].split()) for j in range(1, len(parts) - 1, 2)}
             problem = None
             if st != 0:
                 problem = "status=%s" % st
@@ -119,8 +121,10 @@ def _cli_batch(args):
                         problem = "probe-missing"
                         break
                     ge = got[str(i)].split()
-                    if ge != exp:
-                        k = next((j for j in range(len(names)) if j >= len(ge) or ge[j] != exp[j]), 0)
+                    # "*" in the expectation: defined with an expansion the model does not predict (dynamic macro): any one token but the name
+                    same = len(ge) == len(exp) and all((e == g) if e != "*" else (g != names[j]) for j, (e, g) in enumerate(zip(exp, ge)))
+                    if not same:
+                        k = next((j for j in range(len(names)) if j >= len(ge) or (ge[j] != exp[j] and not (exp[j] == "*" and ge[j] != names[j]))), 0)
                         problem = ("deleted-name-defined" if exp[k] == names[k] else
                                    "defined-name-absent" if k < len(ge) and ge[k] == names[k] else "stale-definition")
                         break
@@ -205,6 +209,9 @@ def run(ctx):
             init[i] = m.group(1).strip()
     if len(init) >= 2:
         name_sets.append(("predefined", pre, init))
+    # dynamic macros: initially defined with an expansion that changes from use to use ("*"); after #define/-D they are ordinary
+    dyn = ["__LINE__", "__COUNTER__", "__FILE__", "__BASE_FILE__"]
+    name_sets.append(("dynamic", dyn, {i: "*" for i in range(len(dyn))}))
     ctx.cover(macro_geometry=geom, macro_name_sets={l: n for l, n, _ in name_sets})
     # alphabet A: 3 names (two values for the first two); alphabet B adds the fourth (neighbouring) name
     opsA = [("def", 0, 1), ("def", 0, 2), ("undef", 0, 0), ("def", 1, 1), ("def", 1, 2), ("undef", 1, 0),
@@ -219,7 +226,7 @@ def run(ctx):
         hists = []
         for ops, L in plan:
             hists += list(itertools.product(ops, repeat=L))
-        if label != "predefined":
+        if label not in ("predefined", "dynamic"):
             # growth of the real macro table in the middle of a history: a filler block at every position of every short history
             nfill = 60
             Lg = 3 if ctx.tier == "quick" else 4
@@ -242,7 +249,9 @@ def run(ctx):
                               files={"h.c": text, "opts.txt": " ".join(opts) + "\n",
                                      "expected.txt": "\n".join("P%d: %s" % (i, _expected(names, hist, i, init)) for i in range(len(hist))) + "\n"},
                               replay=("$CHIBICC -cc1 -E $(cat opts.txt) -cc1-input h.c h.c > got.txt 2>&1 || exit 1\n"
-                                      "grep '^P' got.txt | while read l; do grep -qxF \"$l\" expected.txt || exit 1; done || exit 1\nexit 0"))
+                                      "tr '\\n' ' ' < got.txt | sed 's/P\\([0-9]*\\):/\\nP\\1:/g' | sed 's/  */ /g; s/ *$//' | grep '^P' > got1.txt\n"
+                                      "while read l; do k=${l%%:*}; e=$(grep \"^$k:\" expected.txt); [ -z \"$e\" ] && continue; "
+                                      "python3 -c 'import sys; g=sys.argv[1].split()[1:]; e=sys.argv[2].split()[1:]; sys.exit(0 if len(g)==len(e) and all(x==y or x==\"*\" for x,y in zip(e,g)) else 1)' \"$l\" \"$e\" || exit 1; done < got1.txt\nexit 0"))
         ctx.sample({"level": 2, "name_set": label, "names": names, "history": [list(x) for x in hists[len(hists) // 3]],
                     "rendering": _hist_text(names, hists[len(hists) // 3], 1)}, limit=7)
     ctx.cover(traces_validated_against_impl=nruns, cli_histories=nh, cli_histories_with_table_growth=ngrow)
